@@ -47,6 +47,8 @@ func main() {
 		for r := *from; r < *from+*runs; r++ {
 			runShift(w, *seed, r, *steps)
 		}
+	case "timer":
+		runTimer(w, *seed, *from, *runs, *steps)
 	case "quorum":
 		runQuorum(w, *full, *lo, *hi)
 	case "open":
